@@ -106,13 +106,15 @@ pub fn exec(case: &[i64]) -> Outcome {
       let mut o = Outcome::new(obs).class("keyid-store-history"); if let Some(w) = why { o = o.fail(&w); } o
     }
     3 => {
-      let n = case[1] as usize; let rounds = 200;
+      let n = case[1] as usize; let rounds = 1500;
       let mut worst = (1i64, 1i64);
       for round in 0..rounds {
         let store = Arc::new(KeyIdMemstore::new()); let d = MethodDigest::new(&method(round % 4, round)).unwrap();
         let barrier = Arc::new(std::sync::Barrier::new(n));
         let hs: Vec<_> = (0..n).map(|t| { let (store, d, barrier) = (store.clone(), d.clone(), barrier.clone());
-          std::thread::spawn(move || { let rt = tokio::runtime::Builder::new_current_thread().build().unwrap(); barrier.wait(); rt.block_on(store.insert_key_id(d, KeyId::new(format!("t{t}")))).is_ok() }) }).collect();
+          std::thread::spawn(move || { let rt = tokio::runtime::Builder::new_current_thread().build().unwrap(); let kid = KeyId::new(format!("t{t}"));
+            // released INSIDE the runtime, right before the call, so that the calls really overlap
+            rt.block_on(async move { barrier.wait(); store.insert_key_id(d, kid).await }).is_ok() }) }).collect();
         let oks: Vec<bool> = hs.into_iter().map(|h| h.join().unwrap_or(false)).collect();
         let wins: Vec<usize> = oks.iter().enumerate().filter(|x| *x.1).map(|x| x.0).collect();
         let mapped = rt.block_on(store.get_key_id(&d)).ok().map(|k| k.as_str().to_string());
